@@ -144,24 +144,23 @@ def enabled(node):
     return out
 
 
-def clock_step(node, act):
-    import copy
-    from oslo_utils import fixture, timeutils
-    ref = copy.copy(node.ref)
-    # restore the implementation state of this node: it is exactly this one
-    # module attribute (plus a live fixture whose only state is its cleanup)
-    timeutils.utcnow.override_time = node.ref.now
+def impl_canon(timeutils, fx):
+    """Everything the implementation remembers about the clock: the override
+    attribute and whatever the live fixture object carries."""
+    parts = [repr(timeutils.utcnow.override_time)]
+    if fx is not None:
+        for k in sorted(vars(fx)):
+            v = vars(fx)[k]
+            if k.startswith('_cleanups') or k in ('_details', '_detail_sources') or callable(v):
+                continue
+            if isinstance(v, (DT, TD, int, float, str, bool, type(None))):
+                parts.append('%s=%r' % (k, v))
+    return '|'.join(parts)
+
+
+def do_act(timeutils, fixture, fx, act):
+    """Run one action on the implementation. -> (fixture object or None, exception class name or None)"""
     kind, i = act
-    fx = None
-    if node.ref.fx:
-        fx = fixture.TimeFixture(node.ref.now)
-        fx.setUp()
-        timeutils.utcnow.override_time = node.ref.now
-    try:
-        ref.apply(act)
-        ref_exc = None
-    except OverflowError:
-        ref_exc = 'OverflowError'
     try:
         if kind == 'set':
             timeutils.set_time_override(INSTANTS[i])
@@ -180,18 +179,41 @@ def clock_step(node, act):
             fx.advance_time_delta(DELTAS[i])
         elif kind == 'fx_exit':
             fx.cleanUp()
-        impl_exc = None
+            fx = None
+        return fx, None
     except OverflowError:
-        impl_exc = 'OverflowError'
+        return fx, 'OverflowError'
     except Exception as e:
-        impl_exc = type(e).__name__
+        return fx, type(e).__name__
+
+
+def clock_step(node, act):
+    """One transition. The implementation state of `node` is rebuilt by replaying the
+    node's whole history from a cleared clock (nothing is assumed about where the
+    implementation keeps its state), then `act` is run and the queries compared."""
+    import copy
+    from oslo_utils import fixture, timeutils
+    ref = copy.copy(node.ref)
+    timeutils.utcnow.override_time = None
+    fx = None
+    for a in node.hist:
+        fx, _ = do_act(timeutils, fixture, fx, a)
+    try:
+        ref.apply(act)
+        ref_exc = None
+    except OverflowError:
+        ref_exc = 'OverflowError'
+    fx, impl_exc = do_act(timeutils, fixture, fx, act)
     problem = None
     if impl_exc != ref_exc:
         problem = {'kind': 'exception', 'got': impl_exc, 'want': ref_exc}
     elif ref_exc is None:
         problem = query_all(timeutils, ref)
-    new = seq.Node(None, ref if ref_exc is None else node.ref, node.hist + (act,), node.extra)
-    if fx is not None and kind != 'fx_exit':
+    if ref_exc is not None:
+        ref = copy.copy(node.ref)
+    ref.impl = impl_canon(timeutils, fx)
+    new = seq.Node(None, ref, node.hist + (act,), node.extra)
+    if fx is not None:
         try:
             fx.cleanUp()
         except Exception:
@@ -221,7 +243,8 @@ def _clock_job(job):
     def on_fail(node, act, problem):
         fails.append({'history': [list(a) for a in node.hist + (act,)], 'problem': problem})
 
-    n = seq.bfs([n1], acts, clock_step, lambda nd: (nd.ref.now, nd.ref.fx), depth - 1,
+    n = seq.bfs([n1], acts, clock_step,
+                lambda nd: (nd.ref.now, nd.ref.fx, getattr(nd.ref, 'impl', None)), depth - 1,
                 on_fail, counters, enabled=enabled)
     timeutils.utcnow.override_time = None
     return dict(counters), fails[:20], n
@@ -394,6 +417,65 @@ def _cmp_case(vals, acc):
         set_tz('UTC0')
 
 
+DST_ZONES = ['Europe/Berlin', 'America/New_York', 'Australia/Lord_Howe', 'Europe/London']
+
+
+def transitions(zone, year=2021):
+    """UTC instants (naive) at which the zone's offset changes in `year`, found by scanning."""
+    z = zoneinfo.ZoneInfo(zone)
+    out = []
+    t = DT(year, 1, 1, tzinfo=UTC)
+    prev = t.astimezone(z).utcoffset()
+    step = TD(minutes=30)
+    while t.year == year:
+        t2 = t + step
+        off = t2.astimezone(z).utcoffset()
+        if off != prev:
+            out.append(t2.replace(tzinfo=None))
+            prev = off
+        t = t2
+    return out
+
+
+def _dst_case(vals, acc):
+    """t carries a named zone with daylight saving; the overridden 'now' sits next to
+    one of that zone's transitions, so the transition falls inside or at the edge of
+    the window. What counts is the instant t denotes."""
+    from oslo_utils import timeutils
+    zone, which, before, w, delta = vals
+    trs = transitions(zone)
+    if which >= len(trs):
+        return
+    now = trs[which] - TD(seconds=before)
+    t_utc = now + TD(seconds=w) + TD(microseconds=delta)
+    z = zoneinfo.ZoneInfo(zone)
+    arg = t_utc.replace(tzinfo=UTC).astimezone(z)
+    acc.nontrivial(repr(vals))
+    timeutils.set_time_override(now)
+    try:
+        want = {'is_soon': delta <= 0,
+                'is_newer_than': TD(seconds=w, microseconds=delta) > TD(seconds=w),
+                'is_older_than': TD(seconds=-w, microseconds=-delta) > TD(seconds=w)}
+        for f in want:
+            try:
+                got = getattr(timeutils, f)(arg, w)
+            except Exception as e:
+                got = ('raises', type(e).__name__)
+            if got is not want[f]:
+                acc.fail('%s:dst-zone' % f, {'function': f, 'now_utc': repr(now), 't': repr(arg),
+                                             'fold': arg.fold, 't_as_utc': repr(t_utc), 'seconds': w,
+                                             'got': repr(got), 'want': want[f]},
+                         {'dst': [zone, which, before, w, delta], 'function': f})
+                return
+        n = timeutils.normalize_time(arg)
+        if n != t_utc or n.tzinfo is not None:
+            acc.fail('normalize_time:dst-zone', {'t': repr(arg), 'fold': arg.fold, 'got': repr(n),
+                                                 'want': repr(t_utc)},
+                     {'dst': [zone, which, before, w, delta], 'function': 'normalize_time'})
+    finally:
+        timeutils.clear_time_override()
+
+
 def _marshal_case(vals, acc):
     tz = vals[2] if len(vals) > 2 else 'UTC0'
     set_tz(tz)
@@ -478,6 +560,9 @@ def run(ctx):
     E.run(rep, 'comparisons', [TZS if ctx.thorough else TZS[:2], CMP_NOWS if ctx.thorough else CMP_NOWS[:2],
                                ds, MARGINS, FORMS], _cmp_case)
     E.run(rep, 'huge-ages', [HUGE, FORMS], _huge_case)
+    E.run(rep, 'dst-windows', [DST_ZONES, [0, 1], [1800, 1, 0, -1800, 3600, 5400],
+                               [0, 1, 1800, 3600, 7200, 5400.5], [-3600000000, -1, 0, 1, 3600000000]],
+          _dst_case)
     E.run(rep, 'marshalling', [INSTANTS + [DT(2015, 6, 30, 23, 59, 59, 1), DT(2024, 7, 1, 12, 30)],
                                ['naive', 'utc', 'iso8601', 'zoneinfo'], TZS + ['JST-9']], _marshal_case)
     rep.sample({'clock_history': [['set', 6], ['adv_seconds', 6], ['adv_seconds', 6]],
@@ -516,6 +601,8 @@ def replay(payload):
     elif 'huge' in payload:
         d, sec, us, thr, form = payload['huge']
         _huge_case(((TD(days=d, seconds=sec, microseconds=us), thr), form), acc)
+    elif 'dst' in payload:
+        _dst_case(tuple(payload['dst']), acc)
     elif 'cmp' in payload:
         iso, d, s, form, tz = payload['cmp']
         _cmp_case((tz, DT.fromisoformat(iso), d, s, form), acc)
